@@ -78,6 +78,10 @@ class SimPool:
                             self.overlay[w][m][k] = copy.deepcopy(v)
                         except Exception:
                             pass
+        # a forked worker also owns a copy of the process-wide generators as they were at fork time
+        import random as _random
+        import numpy as _np
+        self.rng_state = [(_np.random.get_state(), _random.getstate()) for _ in range(self.n)]
         self.last_worker = -1
         sim.pools += 1
         sim.ctx.count('pools_created')
@@ -89,6 +93,11 @@ class SimPool:
 
     # ---- process isolation ---------------------------------------------
     def _in_worker(self, w, thunk):
+        import random as _random
+        import numpy as _np
+        parent_rng = (_np.random.get_state(), _random.getstate())
+        _np.random.set_state(self.rng_state[w][0])
+        _random.setstate(self.rng_state[w][1])
         saved = {}
         for m in self.sim.modules:
             d = m.__dict__
@@ -109,6 +118,9 @@ class SimPool:
                         ov[k] = v
                 d.clear()
                 d.update(saved[m])
+            self.rng_state[w] = (_np.random.get_state(), _random.getstate())
+            _np.random.set_state(parent_rng[0])
+            _random.setstate(parent_rng[1])
 
     # ---- scheduling -------------------------------------------------------
     def _run_one(self, k=None):
@@ -126,15 +138,17 @@ class SimPool:
             self.sim.ctx.hit('worker_switch')
         self.last_worker = w
         failed = False
-        for i in ch.idxs:
+        # a chunk crosses to its worker as ONE pickle (CPython's mapstar batch): objects shared by several tasks of the chunk
+        # (one kwargs dict repeated for every file, say) are still one object on the other side
+        try:
+            func, args = pickle.loads(pickle.dumps((ch.func, [ch.items[i] for i in ch.idxs])))
+        except Exception as e:
+            raise SimViolation('unpicklable_task', '%s: %s' % (type(e).__name__, e))
+        for pos, i in enumerate(ch.idxs):
             if failed:
                 ch.res.left -= 1
                 continue
-            try:
-                arg = pickle.loads(pickle.dumps(ch.items[i]))
-                func = pickle.loads(pickle.dumps(ch.func))
-            except Exception as e:
-                raise SimViolation('unpicklable_task', '%s: %s' % (type(e).__name__, e))
+            arg = args[pos]
             try:
                 r = self._in_worker(w, (lambda: func(*arg)) if ch.star else (lambda: func(arg)))
                 ch.res.values[i] = pickle.loads(pickle.dumps(r))
